@@ -764,4 +764,97 @@ theorem holds_eqOrNull (c : ColRef) (v : Val) (g : Val) (r : Row) :
 theorem eqOrNull_usesOth (c : ColRef) (v : Val) : (eqOrNull c v).usesOth = false := by
   cases v <;> rfl
 
+/-! ### n-ary AND / OR -/
+theorem or3_false_right (x : TV) : or3 x (some false) = x := by
+  cases x with
+  | none => rfl
+  | some b => cases b <;> rfl
+
+theorem and3_true_right (x : TV) : and3 x (some true) = x := by
+  cases x with
+  | none => rfl
+  | some b => cases b <;> rfl
+
+theorem or3_true (a b : TV) : or3 a b = some true ↔ a = some true ∨ b = some true := by
+  cases a with
+  | none => cases b with
+    | none => simp [or3]
+    | some y => cases y <;> simp [or3]
+  | some x => cases x <;> cases b with
+    | none => simp [or3]
+    | some y => cases y <;> simp [or3]
+
+theorem nary_or_eval (e : Env) : ∀ (l : List Expr) (x : Expr), nary .or l = some x →
+    x.eval e = or3L (l.map (Expr.eval e))
+  | [], _, h => by simp [nary] at h
+  | [a], x, h => by
+    simp only [nary, Option.some.injEq] at h
+    subst h
+    simp [or3L, or3_false_right]
+  | a :: b :: rest, x, h => by
+    have hs : fnSpec .or = (.or, .or) := rfl
+    simp only [nary, hs] at h
+    cases ht : nary .or (b :: rest) with
+    | none => rw [ht] at h; cases h
+    | some t =>
+      rw [ht] at h
+      simp only [Option.some.injEq] at h
+      subst h
+      have ih := nary_or_eval e (b :: rest) t ht
+      simp only [mkBool, Expr.eval, ih, List.map_cons, or3L]
+
+theorem nary_and_eval (e : Env) : ∀ (l : List Expr) (x : Expr), nary .and l = some x →
+    x.eval e = and3L (l.map (Expr.eval e))
+  | [], _, h => by simp [nary] at h
+  | [a], x, h => by
+    simp only [nary, Option.some.injEq] at h
+    subst h
+    simp [and3L, and3_true_right]
+  | a :: b :: rest, x, h => by
+    have hs : fnSpec .and = (.and, .and) := rfl
+    simp only [nary, hs] at h
+    cases ht : nary .and (b :: rest) with
+    | none => rw [ht] at h; cases h
+    | some t =>
+      rw [ht] at h
+      simp only [Option.some.injEq] at h
+      subst h
+      have ih := nary_and_eval e (b :: rest) t ht
+      simp only [mkBool, Expr.eval, ih, List.map_cons, and3L]
+
+theorem or3L_true (l : List TV) : or3L l = some true ↔ ∃ x ∈ l, x = some true := by
+  induction l with
+  | nil => simp [or3L]
+  | cons a l ih =>
+    simp only [or3L, or3_true, ih, List.mem_cons]
+    constructor
+    · rintro (h | ⟨x, hx, e⟩)
+      · exact ⟨a, Or.inl rfl, h⟩
+      · exact ⟨x, Or.inr hx, e⟩
+    · rintro ⟨x, (rfl | hx), e⟩
+      · exact Or.inl e
+      · exact Or.inr ⟨x, hx, e⟩
+
+theorem and3L_true (l : List TV) : and3L l = some true ↔ ∀ x ∈ l, x = some true := by
+  induction l with
+  | nil => simp [and3L]
+  | cons a l ih =>
+    simp only [and3L, and3_true, ih, List.mem_cons]
+    constructor
+    · rintro ⟨h, hl⟩ x (rfl | hx)
+      · exact h
+      · exact hl x hx
+    · intro h
+      exact ⟨h a (Or.inl rfl), fun x hx => h x (Or.inr hx)⟩
+
+theorem nary_isSome (f : BoolOp) : ∀ (l : List Expr), l ≠ [] → (nary f l).isSome = true
+  | [], h => absurd rfl h
+  | [a], _ => rfl
+  | a :: b :: rest, _ => by
+    have := nary_isSome (fnSpec f).2 (b :: rest) (by simp)
+    simp only [nary]
+    cases h : nary (fnSpec f).2 (b :: rest) with
+    | none => rw [h] at this; cases this
+    | some t => rfl
+
 end SqlObjVerif.Query
